@@ -26,6 +26,7 @@ import BioCantor.Proofs.ValWindows
 import BioCantor.Proofs.ValMore
 import BioCantor.Proofs.ValColl
 import BioCantor.Proofs.ValPairs
+import BioCantor.Proofs.ValHier
 set_option autoImplicit false   -- an unresolved name in a statement must be an error, never a bound variable
 namespace BioCantor.Props.C19
 open BioCantor BioCantor.Model BioCantor.Model.Validate BioCantor.Proofs.Val
@@ -311,6 +312,79 @@ theorem from_single_intervals_triples (i j k : Nat) (hi : i < nKinds) (hj : j < 
 theorem from_single_intervals_exact (k : PChain) (rest : List PChain) :
     fsiParents (k :: rest) = .ok () ↔ ∀ k' ∈ rest, k' = k :=
   fsiParents_ok_iff k rest
+
+/-! ### the hierarchy handed in as `parent_or_seq_chunk_parent` -/
+
+/-- T20 (partial).  Full statement: `∀ c k, k < nHierKinds → hierPoint c k = true` - every interval / collection
+    constructor (`.located`: everything with coordinates of its own; `.emptyAnnot`: an AnnotationCollection without
+    children and bounds) x every one of the 20 parent hierarchies of the grid (`Spec.Validate.hierKinds`): the modelled
+    parent validation accepts exactly the hierarchies the documentation allows and refuses the others with the class the
+    documentation names (NoSuchAncestorException: a sequence chunk without a chromosome above it;
+    NullSequenceException: a chunk level without sequence), never with an internal error.  FAILS on the grid points
+    `hierDeviation`: kinds 12, 18 (the chunk does not say where it sits on a parent: AttributeError, F-C19t), kinds
+    16, 19 (a valid chunk-on-chromosome hierarchy written with a sequence on the chromosome / with
+    `Parent(id, type, location)` is refused with MismatchedParentException, F-C19u), and the empty
+    AnnotationCollection on kinds 7-10, 17 (it never looks at its parent, F-C19w).  Proved for every other point. -/
+theorem parent_hierarchy_grid_partial (c : HCls) (k : Nat) (hk : k < nHierKinds) (hdev : hierDeviation c k = false) :
+    hierPoint c k = true := by
+  rw [hier_grid c k hk, hdev]; rfl
+
+example : (6 : Nat) < nHierKinds ∧ hierDeviation .located 6 = false ∧ hierDeviation .emptyAnnot 11 = false := by decide
+
+/-- T20w the listed deviations are real: on each of them the modelled current code gives an answer the specification
+    rejects -/
+theorem parent_hierarchy_deviation_witness (c : HCls) (k : Nat) (hk : k < nHierKinds) (hdev : hierDeviation c k = true) :
+    hierPoint c k = false := by
+  rw [hier_grid c k hk, hdev]; rfl
+
+example : (12 : Nat) < nHierKinds ∧ hierDeviation .located 12 = true ∧ hierDeviation .emptyAnnot 7 = true := by decide
+
+/-- T21 ANY hierarchy without a sequence chunk is taken as it is -/
+theorem hierarchy_without_chunk_accepted (chain : List HLevel) (h : hasAncestor .chunk chain = false) :
+    liftoverParents chain = .ok () :=
+  liftover_without_chunk chain h
+
+example : hasAncestor .chunk [⟨.chromosome, true, .none⟩] = false := by decide
+
+/-- T22 ANY hierarchy with a sequence chunk and no chromosome is refused with NoSuchAncestorException - whatever
+    parent the chunk has (another type, no type, another chunk) or does not have -/
+theorem chunk_without_chromosome_refused (chain : List HLevel) (hk : hasAncestor .chunk chain = true)
+    (hc : hasAncestor .chromosome chain = false) :
+    liftoverParents chain = .error (.doc .NoSuchAncestor) :=
+  liftover_chunk_without_chromosome chain hk hc
+
+example : hasAncestor .chunk [⟨.chunk, true, .none⟩, ⟨.other, false, .ptr false⟩] = true ∧
+    hasAncestor .chromosome [⟨.chunk, true, .none⟩, ⟨.other, false, .ptr false⟩] = false := by decide
+
+/-- T23 ANY hierarchy whose first chunk level has no sequence (and that holds a chromosome) is refused with
+    NullSequenceException -/
+theorem chunk_without_sequence_refused (chain : List HLevel) (c : HLevel) (above : List HLevel)
+    (hc : hasAncestor .chromosome chain = true)
+    (hd : chain.dropWhile (fun l => l.ty != .chunk) = c :: above) (hs : c.hasSeq = false) :
+    liftoverParents chain = .error (.doc .NullSequence) :=
+  liftover_chunk_without_sequence chain c above hc hd hs
+
+example : hasAncestor .chromosome [⟨.chunk, false, .none⟩, ⟨.chromosome, false, .ptr false⟩] = true ∧
+    [(⟨.chunk, false, .none⟩ : HLevel), ⟨.chromosome, false, .ptr false⟩].dropWhile (fun l => l.ty != .chunk) =
+      [⟨.chunk, false, .none⟩, ⟨.chromosome, false, .ptr false⟩] := by decide
+
+/-- T24 ANY hierarchy: the parent validation ends in acceptance, in NoSuchAncestorException / NullSequenceException /
+    MismatchedParentException, or in the AttributeError of F-C19t -/
+theorem parent_validation_outcomes (chain : List HLevel) :
+    liftoverParents chain = .ok () ∨ liftoverParents chain = .error (.doc .NoSuchAncestor) ∨
+    liftoverParents chain = .error (.doc .NullSequence) ∨ liftoverParents chain = .error (.doc .MismatchedParent) ∨
+    liftoverParents chain = .error (.internal "AttributeError") :=
+  liftover_outcomes chain
+
+/-- T24 (partial).  Full statement: `∀ chain cls, liftoverParents chain ≠ .error (.internal cls)`.  FAILS when the level
+    above the chunk carries no location (F-C19t).  Proved whenever that level records where the chunk sits. -/
+theorem parent_validation_never_internal_partial (chain : List HLevel) (c a : HLevel) (above : List HLevel)
+    (hd : chain.dropWhile (fun l => l.ty != .chunk) = c :: a :: above) (hl : a.loc ≠ .none) :
+    ∀ cls, liftoverParents chain ≠ .error (.internal cls) :=
+  liftover_noInternal_of_located chain c a above hd hl
+
+example : [(⟨.chunk, true, .none⟩ : HLevel), ⟨.chromosome, false, .ptr false⟩].dropWhile (fun l => l.ty != .chunk) =
+      ⟨.chunk, true, .none⟩ :: ⟨.chromosome, false, .ptr false⟩ :: [] ∧ HLoc.ptr false ≠ HLoc.none := by decide
 
 /-! ### never an internal error, for ALL arguments -/
 
